@@ -227,6 +227,13 @@ func durOpt(opts map[string]string, k string, def time.Duration) time.Duration {
 	return def
 }
 
+func leaseOpt(opts map[string]string) int64 {
+	if v, ok := opts["lease"]; ok {
+		return int64(atoi(v))
+	}
+	return 0
+}
+
 func newBackendSuite(opts map[string]string) *backendSuite {
 	s := &backendSuite{c: newCtl(), opts: opts, watchers: map[string]*watcher{}, hooks: map[string]*hookGate{}}
 	below := strings.HasPrefix(opts["engine"], "metrics-")
@@ -377,7 +384,9 @@ func (s *backendSuite) runOp(ctx context.Context, b backend.Backend, t []string)
 		}
 		return fmt.Sprintf("create cf %d", resp.Header.Revision)
 	case "update":
-		resp, err := b.Update(ctx, &proto.UpdateRequest{Kv: &proto.KeyValue{Key: unhx(pos[1]), Value: unhx(pos[2]), Revision: atou(pos[3])}})
+		// lease=<n>: the client's lease (etcd: put.Lease; LeaseGrant answers id == ttl) - an update takes no ttl from it
+		resp, err := b.Update(ctx, &proto.UpdateRequest{Kv: &proto.KeyValue{Key: unhx(pos[1]), Value: unhx(pos[2]), Revision: atou(pos[3])},
+			Lease: leaseOpt(opts)})
 		if err != nil {
 			return "update err " + classify(err)
 		}
